@@ -551,7 +551,20 @@ def train_classifier(prop):
                 info["prop_fail"] = "files-are-not-the-image-of-the-model"
                 info["why"] = "the emitted files differ from the image of the trained model (rows, ids or truncated scaled costs)"
             elif flags.get("COMPILES") == "0":
-                info["prop_fail"] = "emitted-files-do-not-compile"
+                # the known finding F22 needs a category name that must be quoted in unk.def (`,` or `"` in a char.def name):
+                # read off the INPUT (the char.def carried in the flags); any other failure to compile is a new violation
+                names = []
+                try:
+                    for l in bytes.fromhex(flags.get("CHARDEF", "")).decode("utf-8", "replace").splitlines():
+                        c = l.split()
+                        if c and not c[0].startswith(("#", "0x", "0X")):
+                            names.append(c[0])
+                except ValueError:
+                    pass
+                if any(("," in n or '"' in n) for n in names):
+                    info["prop_fail"] = "emitted-files-do-not-compile"
+                else:
+                    info["prop_fail"] = "emitted-files-do-not-compile-without-a-category-name-to-quote"
                 info["why"] = "the files emitted by write_dictionary are rejected by SystemDictionaryBuilder::from_readers"
             if "USERC" in flags:
                 # diagnostic only: rows with explicit parameters are copied unchanged (as the property says), so their
